@@ -61,6 +61,8 @@ def _job(args):
         res["l5"] = run.results["l5"]
     if run.results.get("cc") is not None:
         res["cc"] = run.results["cc"]
+    if run.results.get("api") is not None:
+        res["api"] = run.results["api"]
     if run.status not in ("all-finished",):
         res["violations"].append({"monitor": "sched", "kind": "hang", "what": f"run ended with status {run.status}; threads still blocked: {run.blocked}"})
     if mode == "first":
